@@ -16,7 +16,8 @@ def install_schema(reg: Registry):
     # lname / rname (schema order) and their contents as lfield / rfield (the list objects the library wraps).
     s.add_class(ASSET, {'name': T.str, 'id': T('int', opt=True), 'type': T.str, 'associations': List(Obj(ASSOC))})
     s.add_class(ASSOC, {'lname': T.str, 'rname': T.str, 'lfield': List(Obj(ASSET)), 'rfield': List(Obj(ASSET)), 'clsname': T.str})
-    s.add_class(MODEL, {'name': T.str, 'assets': List(Obj(ASSET)), 'associations': List(Obj(ASSOC))})
+    s.add_class(MODEL, {'name': T.str, 'assets': List(Obj(ASSET)), 'associations': List(Obj(ASSOC)),
+                        '_type_to_association': Dict(T.str, List(Obj(ASSOC))), 'attackers': List(Obj('AttackerAttachment'))})
     reg.classes[ASSOC] = ClassInfo(ASSOC, None, False)
 
     def assoc_getattr(ex, st, o, name):
